@@ -3,6 +3,7 @@ package harness
 import (
 	"fmt"
 	"os"
+	"sort"
 	"strings"
 
 	"verif/engine/vsys"
@@ -260,19 +261,30 @@ func ctlScenario(p map[string]any) *Scenario {
 		return out
 	}
 	sc.Outcome = func(x *X, e *End) string {
-		var b strings.Builder
+		// per-thread results in per-thread order, threads sorted: the relative order of
+		// different threads' log entries is not part of the outcome
+		per := map[string][]string{}
 		nev, nerr := 0, 0
 		for _, o := range x.Log {
 			switch o.Kind {
 			case "ret":
-				fmt.Fprintf(&b, "%s=%s%v;", o.What, o.Err, o.List)
+				per[o.Thread] = append(per[o.Thread], fmt.Sprintf("%s=%s%v", o.What, o.Err, o.List))
 			case "event":
 				nev++
 			case "error":
 				nerr++
 			case "note":
-				fmt.Fprintf(&b, "%s:%s;", o.What, o.Arg)
+				per[o.Thread] = append(per[o.Thread], fmt.Sprintf("%s:%s", o.What, o.Arg))
 			}
+		}
+		var ths []string
+		for t := range per {
+			ths = append(ths, t)
+		}
+		sort.Strings(ths)
+		var b strings.Builder
+		for _, t := range ths {
+			fmt.Fprintf(&b, "%s[%s] ", t, strings.Join(per[t], ";"))
 		}
 		fmt.Fprintf(&b, "ev=%d err=%d pending=%d blocked=%d", nev, nerr, len(e.Pending), len(e.Blocked))
 		return b.String()
